@@ -37,7 +37,8 @@ Step == l' = l + 1
 Reset == Is("reset") /\ Step /\ wrs' = <<>> /\ rds' = <<>>
 
 NewW == Is("new_writer") /\ Step /\ UNCHANGED rds
-        /\ wrs' = Put(wrs, Ev.o, NewWriterCap(Ev.e, Ev.w, IF Ev.backend = "slice" THEN Ev.cap ELSE -1) @@ [checks |-> Ev.checks, dn |-> 0, h1 |-> 0, h2 |-> 0])
+        /\ wrs' = Put(wrs, Ev.o, NewWriterCap(Ev.e, Ev.w, IF Ev.backend = "slice" THEN Ev.cap ELSE -1) @@ [checks |-> Ev.checks, dn |-> 0, h1 |-> 0, h2 |-> 0,
+                                        init |-> IF Has(Ev, "init") THEN Ev.init ELSE -1])
 
 \* delivered bytes -> stream bits through the layout contract
 Delivered(e, wr) == StreamOfBytes(wr.e, e.nb)
@@ -126,6 +127,8 @@ Close ==
        IN  /\ CloseStep(wr, Ev.res, Delivered(Ev, wr), [wr EXCEPT !.pend = <<>>, !.room = IF @ < 0 \/ wr.pend = <<>> THEN @ ELSE @ - 1])
            /\ BackendFlushed(Ev)
            /\ wl.dn <= Len(Ev.image)
+           \* memory backends: the storage never shrinks (a vector grows to what was delivered)
+           /\ wr.init >= 0 => Len(Ev.image) = Max2(wr.init, wl.dn)
            /\ FoldLeft(H1, 0, SubSeq(Ev.image, 1, wl.dn)) = wl.h1
            /\ FoldLeft(H2, 0, SubSeq(Ev.image, 1, wl.dn)) = wl.h2
            /\ AllZero(SubSeq(Ev.image, wl.dn + 1, Len(Ev.image)))
